@@ -192,7 +192,7 @@ def minmax(R, P):
 def fallback(ctx, R, replace):
     """the portable and assembly variants, compiled as a synthetic unit with renamed symbols"""
     names = NAMES
-    src = os.path.join(ctx.ex.dir, "math_variants.c")
+    src = os.path.join(ctx.ex.dir, "math_variants_%d.c" % os.getpid())  # forked self-check workers share ex.dir
     pre_inc = None
     for k, v in (replace or {}).items():
         if k.startswith("include/"):
